@@ -594,6 +594,73 @@ func c16CaseSlow(op timedOp, tl []tlItem, cutAt time.Duration, bound int, slow t
 	}}
 }
 
+// c16Twice: a periodic source value subscribed twice - one subscription after the other has been cut, or
+// two overlapping ones. Each subscription is a run of its own: it starts at 0 and keeps the lower bounds
+// counted from its own subscription instant.
+func c16Twice(op timedOp, overlapping bool) fw.Case {
+	nm := "subscribed twice, one after the other"
+	if overlapping {
+		nm = "subscribed twice, overlapping"
+	}
+	return fw.Case{Name: nm, Opts: vrt.Options{Horizon: 60000, MaxTime: int64(2*op.maxTime + 2*u)}, Make: func() fw.Instance {
+		recs := []*h.Rec{h.NewRec("first"), h.NewRec("second")}
+		logs := []*c16log{{cutAt: -1}, {cutAt: -1}}
+		var escaped string
+		var handles twoSubs
+		body := func() {
+			o, _ := h.Pushed[int](h.NewSrc("unused"), h.Unsafe)
+			subscribe := op.build(o, logs[0]) // ONE observable value
+			start := func(i int) {
+				logs[i].subAt = vrt.NowNS()
+				vrt.GoNamed(fmt.Sprint("subscribe", i+1), func() {
+					guard(&escaped, "Subscribe", func() { handles.set(i, subscribe(recs[i])) })
+				})
+			}
+			start(0)
+			if overlapping {
+				vrt.HSleep(int64(u))
+				start(1)
+				return
+			}
+			vrt.HSleep(int64(op.maxTime/2/u*u + u))
+			if s := handles.get(0); s != nil {
+				s.Unsubscribe()
+				logs[0].cut()
+			}
+			start(1)
+		}
+		return fw.Instance{Body: body, Outcome: func() string { return recs[0].Trace() + " | " + recs[1].Trace() }, Nontrivial: func(r *vrt.Result) bool { return recs[1].Len() > 0 },
+			Check: func(r *vrt.Result) []fw.Violation {
+				var out []fw.Violation
+				for i := range recs {
+					i := i
+					add := func(clause, cls, detail string) {
+						out = append(out, fw.V("time/"+op.name+"/"+clause+"/"+cls, fmt.Sprintf("%s, %s, subscription #%d: %s (first [%s], second [%s])", op.name, nm, i+1, detail, recs[0].Trace(), recs[1].Trace())))
+					}
+					if g := h.GrammarError(recs[i].Events()); g != "" {
+						add("grammar", grammarClass(recs[i].Events()), g)
+					}
+					op.check(logs[i], recs[i].Log, add)
+				}
+				if escaped != "" {
+					out = append(out, fw.V("time/"+op.name+"/panic-escaped/subscribe", escaped))
+				}
+				if r.Crash != nil {
+					out = append(out, fw.V("time/"+op.name+"/goroutine-top-panic/"+r.Crash.Name, r.Crash.Value))
+				}
+				return out
+			}}
+	}}
+}
+
+type twoSubs struct{ s [2]ro.Subscription }
+
+//go:norace
+func (t *twoSubs) set(i int, s ro.Subscription) { t.s[i] = s }
+
+//go:norace
+func (t *twoSubs) get(i int) ro.Subscription { return t.s[i] }
+
 func init() {
 	Registry["C16"] = func(tier string) []fw.Scenario {
 		n, bound := 2, 1
@@ -607,6 +674,9 @@ func init() {
 				tls := [][]tlItem{nil}
 				if !op.creates {
 					tls = timelines(op.d, n)
+				} else if !strings.HasPrefix(op.name, "RetryWithConfig") { // (its oracle reads an attempt log that belongs to one subscription)
+					c.Explore(c16Twice(op, false))
+					c.Explore(c16Twice(op, true))
 				}
 				for _, tl := range tls {
 					c.Explore(c16Case(op, tl, -1, bound))
